@@ -1331,4 +1331,40 @@ theorem zip_face_walks {m : Map X} (h : WF 4 m) {ld rd L : Nat} (hl0 : ld ≠ 0)
     have : y = it m 0 t rd := ((hb _ _ _ _ hphi (Or.inr ⟨t, rfl, rfl⟩)).1 rfl)
     rw [← this]; exact hy
 
+
+/-- on a closed cycle the inverse image is `L - 1` steps ahead -/
+theorem Cyc.pred {m : Map X} (h : WF 4 m) {i j d L : Nat} (dir : Dir i j) (hd : d < m.n) (c : Cyc m i d L)
+    (t : Nat) : m.β j (it m i t d) = it m i (t + (L - 1)) d := by
+  have hi4 : i < 4 := by have := dir.ilt; omega
+  have e : it m i (t + (L - 1) + 1) d = it m i t d := by
+    rw [show t + (L - 1) + 1 = L + t by have := c.pos; omega, it_add, c.per]
+  rw [it_succ'] at e
+  have := h.inv_ij dir (it_lt h hi4 (t + (L - 1)) d hd) (by rw [e]; exact c.nz t)
+  rw [e] at this; exact this
+
+/-- the vertex pairs of a 3-link of two closed faces: the head of each left dart with its partner -/
+def pairsA (m : Map X) (ps : List (Nat × Nat)) : List (Nat × Nat) := ps.map (fun pq => (m.β 1 pq.1, pq.2))
+
+/-- on closed faces the pairs "left dart — head of its partner" are among the pairs "head of a
+    left dart — its partner" (shifted by one position) -/
+theorem pairsV3_closed {m : Map X} (h : WF 4 m) {ld rd L : Nat} (hln : ld < m.n) (hrn : rd < m.n)
+    (cl : Cyc m 1 ld L) (cr : Cyc m 0 rd L) (x : Nat × Nat) :
+    x ∈ pairsV3 m (walkPairs m 1 0 L ld rd) ↔ x ∈ pairsA m (walkPairs m 1 0 L ld rd) := by
+  have d01 : Dir 0 1 := Or.inr ⟨rfl, rfl⟩
+  unfold pairsV3 pairsA
+  constructor
+  · intro hm
+    rcases List.mem_append.1 hm with hm | hm
+    · exact hm
+    · obtain ⟨pq, hp, rfl⟩ := List.mem_map.1 hm
+      obtain ⟨t, ht, rfl⟩ := (mem_walkPairs L ld rd pq).1 hp
+      -- (p_t, β1 q_t) = (β1 p_s, q_s), s = (t + L - 1) % L
+      refine List.mem_map.2 ⟨(it m 1 ((t + (L - 1)) % L) ld, it m 0 ((t + (L - 1)) % L) rd),
+        (mem_walkPairs L ld rd _).2 ⟨(t + (L - 1)) % L, Nat.mod_lt _ cl.pos, rfl⟩, ?_⟩
+      simp only
+      rw [← cl.it_mod, ← cr.it_mod, ← it_succ', cr.pred h d01 hrn t]
+      congr 1
+      rw [show t + (L - 1) + 1 = L + t by have := cl.pos; omega, it_add, cl.per]
+  · intro hm; exact List.mem_append_left _ hm
+
 end HC.Cell3
